@@ -23,7 +23,7 @@ func C02(c *core.Ctx) {
 		"admitted value in every cell of the width table (region-domain interpretation, shared with C15), and A-SIZED decides the same end to end on optional integer properties in every bound form. B-LAYOUT: in pkg/types each MarshalJSON prints with the layout constant its sibling UnmarshalJSON parses " +
 		"with, on every return path. B-ADDPROPS: both emitters delete the declared keys from the raw map before collecting the remainder; A-SHADOW: in the emitted block the declared keys are enumerated by reflection over the shadow type of the decoded value, also when the schema declares a type of that very name. " +
 		"Not decided: value equality after a round trip, numeric precision, RFC 3339 conformance of the layouts, encoding/json's case-insensitive key matching — runtime quantities."
-	rules := ruleSet("A-TAG", "A-MAP", "A-NOEXTRA", "A-OVERREJ", "A-SHADOW")
+	rules := ruleSet("A-TAG", "A-MAP", "A-NOEXTRA", "A-OVERREJ", "A-SHADOW", "A-COLLECT")
 	d := gen.DefaultConfig()
 	j := d
 	j.Tags = []string{"json"}
@@ -52,7 +52,7 @@ func C02(c *core.Ctx) {
 					}
 				}
 				for _, is := range fam.MethodIssues(fm) {
-					if is.Rule == "A-SHADOW" {
+					if is.Rule == "A-SHADOW" || is.Rule == "A-COLLECT" {
 						keep = append(keep, is)
 					}
 				}
